@@ -7,6 +7,12 @@ def histGrowFactor : Nat := 2
 def histFixedStepScalesT : Bool := true
 /-- the history read emitted for adaptive solvers is `hist(t - d)[idx]` -/
 def histAdaptiveUsesT : Bool := true
+/-- the two-point formula of the generated Fortran `finterp` starts from sample `n-1` -/
+def finterpBaseIsPrev : Bool := true
+/-- `_process_idx` tests membership with the very expression it inserts into `_offsetted_var_ids` -/
+def idxOffsetKeyConsistent : Bool := true
+/-- the torch backend's `interp` definition is the clamped two-point formula that the correspondence was validated for -/
+def torchInterpIsLinear : Bool := true
 def heunCopiesRhs : Bool := true
 /-- BaseBackend.run builds `times` as np.arange(n)*step (true) or as linspace(0,T,n,endpoint=False)/unknown (false) -/
 def timeAxisIsArange : Bool := true
